@@ -30,6 +30,8 @@ pub struct Walker<'a> {
     pub lenient_blank_end: bool,
     /// the input contains an XML declaration that may switch the decoder (feature `encoding`)
     pub declares_encoding: bool,
+    /// the set of possible stacks became too large; end tags are checked leniently from then on
+    pub overflow: bool,
 }
 
 fn lossy(b: &[u8]) -> String {
@@ -57,6 +59,7 @@ impl<'a> Walker<'a> {
             changed: 0,
             check_pos: true,
             lenient_blank_end: true,
+            overflow: false,
             declares_encoding: toks.iter().any(|l| matches!(l.tok, Tok::Decl(_))) || data.starts_with(b"<?xm"),
         }
     }
@@ -219,8 +222,21 @@ impl<'a> Walker<'a> {
                             }
                         }
                     }
+                    if next.is_empty() && self.overflow {
+                        let ok = match &actual.ev {
+                            Ev::End(n) => names.iter().any(|nm| &n.0[..] == *nm),
+                            Ev::Mismatch(_, f) => bits & CHECK_END_NAMES != 0 && names.iter().any(|nm| self.name_matches(f, nm)),
+                            Ev::Unmatched(f) => bits & ALLOW_UNMATCHED == 0 && names.iter().any(|nm| self.name_matches(f, nm)),
+                            _ => false,
+                        };
+                        if ok {
+                            next = std::mem::take(&mut self.stacks);
+                        }
+                    }
                     if next.is_empty() {
+                        wants.sort_by_key(|w| format!("{:?}", w));
                         wants.dedup();
+                        wants.truncate(6);
                         return Step::Bad(format!("end tag {:?}: expected one of {:?}, got {:?}", lossy(c), wants, actual.ev));
                     }
                     if actual.ev.is_err() {
@@ -231,7 +247,11 @@ impl<'a> Walker<'a> {
                     }
                     next.sort();
                     next.dedup();
-                    next.truncate(64);
+                    if next.len() > 2048 {
+                        // too many possible stacks to track: from here on end tags are only
+                        // checked for their own name (counted by the caller as a class)
+                        self.overflow = true;
+                    }
                     self.stacks = next;
                     if self.check_pos && actual.pos != pos {
                         return Step::Bad(format!("{:?}: position {} expected {}", actual.ev, actual.pos, pos));
